@@ -121,33 +121,44 @@ def check(ctx) -> Result:
     # ---- aggregates over a component's own collection (barrier modes, swap dictionary) tolerate the empty collection,
     #      which the construction API allows (barrier([]), mode_swaps({}))
     na = 0
+
+    def check_aggregates(f, aliases, depth=0):
+        nonlocal na
+        aliases = set(aliases)
+        for a in walk_no_nested(f.node):
+            if isinstance(a, ast.Assign) and isinstance(a.targets[0], ast.Name) and any(al in src(a.value) for al in aliases if "." in al):
+                aliases.add(a.targets[0].id)
+        par = ctx.tree.parents(f.rel)
+        for c in walk_no_nested(f.node):
+            if isinstance(c, ast.Call) and src(c.func) in ("max", "min") and len(c.args) == 1 and not any(k.arg == "default" for k in c.keywords):
+                a0 = c.args[0]
+                over = None
+                if isinstance(a0, (ast.GeneratorExp, ast.ListComp)):
+                    it = src(a0.generators[0].iter)
+                    over = it if it in aliases else None
+                elif src(a0) in aliases:
+                    over = src(a0)
+                if over is None:
+                    continue
+                na += 1
+                st = c
+                while not isinstance(st, ast.stmt):
+                    st = par[st]
+                facts = facts_at(f.node, st) or []
+                guarded = any(f_ == frozenset({Lit("truthy", al)}) for f_ in facts for al in list(aliases) + [over])
+                res.add(guarded, "E-aggregate-over-possibly-empty", f"{f.qualname}:{src(c)[:40]}", f.site(c), f.qualname, "guarded by an emptiness test (or default=)",
+                        f"`{src(c)[:60]}` raises ValueError when `{over}` is empty, and the construction API accepts an empty collection here (barrier([]), mode_swaps({{}})): a constructible circuit cannot be displayed", construct=src(c)[:100])
+            # the collection handed on to a helper of the drawer: the helper is checked with its parameter as the collection
+            if depth < 2 and isinstance(c, ast.Call) and isinstance(c.func, ast.Attribute) and src(c.func.value) == "self" and f.cls is not None and c.func.attr in f.cls.methods:
+                h = f.cls.methods[c.func.attr]
+                hp = h.params()[1:]
+                for p_, a_ in list(zip(hp, c.args)) + [(k.arg, k.value) for k in c.keywords if k.arg]:
+                    if src(a_) in aliases:
+                        check_aggregates(h, {p_}, depth + 1)
+
     for ci in (DS, DM):
         for f in ci.multimethods.get("_add", []):
-            aliases = {"spec.modes", "spec.swaps"}
-            for a in walk_no_nested(f.node):
-                if isinstance(a, ast.Assign) and isinstance(a.targets[0], ast.Name) and any(al in src(a.value) for al in ("spec.modes", "spec.swaps")):
-                    aliases.add(a.targets[0].id)
-            par = ctx.tree.parents(f.rel)
-            for c in walk_no_nested(f.node):
-                if isinstance(c, ast.Call) and src(c.func) in ("max", "min") and len(c.args) == 1 and not any(k.arg == "default" for k in c.keywords):
-                    a0 = c.args[0]
-                    names = {src(x) for x in ast.walk(a0) if isinstance(x, (ast.Name, ast.Attribute))}
-                    over = None
-                    if isinstance(a0, (ast.GeneratorExp, ast.ListComp)):
-                        it = src(a0.generators[0].iter)
-                        over = it if it in aliases else None
-                    elif src(a0) in aliases:
-                        over = src(a0)
-                    if over is None:
-                        continue
-                    na += 1
-                    st = c
-                    while not isinstance(st, ast.stmt):
-                        st = par[st]
-                    facts = facts_at(f.node, st) or []
-                    guarded = any(f_ == frozenset({Lit("truthy", al)}) for f_ in facts for al in ("spec.modes", "spec.swaps", over))
-                    res.add(guarded, "E-aggregate-over-possibly-empty", f"{f.qualname}:{src(c)[:40]}", f.site(c), f.qualname, "guarded by an emptiness test (or default=)",
-                            f"`{src(c)[:60]}` raises ValueError when `{over}` is empty, and the construction API accepts an empty collection here: a constructible circuit cannot be displayed", construct=src(c)[:100])
+            check_aggregates(f, {"spec.modes", "spec.swaps"})
     res.floor("aggregates over component collections", na, 2)
     # ---- no side effects on the circuit
     n1 = rc_owner.c1_arguments(ctx, res, only_rels={SVG, MPL, DISP})
